@@ -115,6 +115,31 @@ def grid_cases(versions):
                                              ["Cryptographic Usage Mask", F.ALL_MASK]],
                                    "dp": {"params": {"hash": "SHA_256"}, "salt": "0102", "iter": 1}})]
         from vlib import hist as _hist
+        # a Locate (one match / several / none) in front of identifier-less items
+        locs = [("one", {"op": "Locate", "attrs": [["Name", "n-SymmetricKey-ACTIVE"]]}),
+                ("many", {"op": "Locate", "attrs": [["Object Type", "SymmetricKey"]]}),
+                ("none", {"op": "Locate", "attrs": [["Name", "no-such-name"]]})]
+        for ll, litem in locs:
+            for pop in _hist.PLACEHOLDER_OPS:
+                if pop in ("Encrypt", "MAC", "Sign") and tuple(v) < (1, 2):
+                    continue
+                req = {"v": list(v), "cont": "CONTINUE",
+                       "items": [litem, _hist.placeholder_item(pop, v), {"op": "GetAttributes"}]}
+                cases.append({"label": "Batch/Locate-%s+%s" % (ll, pop), "reqs": [req]})
+        # the same object named by another spelling of its identifier (a numeric key column takes
+        # '07', ' 7', '7.0', '+7' for 7) before and after it is destroyed under its usual spelling
+        victim = idx["SymmetricKey/PRE_ACTIVE"]
+        for sp in ("0%s", " %s", "%s.0", "+%s", "%s "):
+            alias = sp % victim
+            firsts = {}
+            for label, item in M.object_menu(alias, idx) + M.attr_menu(alias, v):
+                firsts.setdefault((label.split("/")[0], item.get("op")), (label, item))
+            for label, item in firsts.values():
+                cases.append({"label": "Alias/%s@%s" % (label, sp.replace("%s", "N")),
+                              "reqs": [{"v": list(v), "items": [{"op": "Get", "uid": alias}]},
+                                       {"v": list(v), "items": [{"op": "Destroy", "uid": victim}]},
+                                       {"v": list(v), "items": [item]},
+                                       {"v": list(v), "items": [{"op": "Locate"}]}]})
         for cl, citem in creators:
             for pop in _hist.PLACEHOLDER_OPS:
                 if pop in ("Encrypt", "MAC", "Sign") and tuple(v) < (1, 2):
